@@ -1,16 +1,392 @@
 /-
-C07 — after any network operation the node listens again on all its addresses (statements in progress).
+C07 — "After any network operation the node listens again on all its addresses."
+
+Whenever update(), write(), send(), multicast(), a node_address/multicast_level assignment or any
+mesh call returns - whether it succeeded, failed, timed out or forwarded traffic - the radio is
+powered up in receive mode with CE high, all six pipes open on the node's own pipe addresses (pipe
+0 on its level's shared address), auto-acknowledgement enabled on pipes 1-5 and disabled on pipe 0,
+and dynamic payloads on.
+
+Spec: `NrfModel/Spec/Listening.lean` (`Nrf.Spec.Listening`, on the registers of the radio model,
+with the *documented* addresses of `NrfModel/Spec/Tree.lean`).
+Model: `NrfModel/Net/Node.lean` (the mutual block `rfSend … nodeWrite nodeUpdate masterRelease
+masterDhcp`), `NrfModel/Net/Api.lean`, over the driver model `NrfModel/Rf24.lean` and the radio /
+air model (environment).
+
+The inductive invariant (`NodeListens`, `NrfProofs/C07Listen.lean`) is `Listening` in terms of the
+implementation's `_pipe_address` **plus the driver-side companion** that `listen = True` relies on:
+`_pipe0_read_addr` remembers the pipe-0 address, `_open_pipes = 0x3F`, the shadows of EN_AA and
+RX_ADDR_P0 equal the registers, the address shadows have five bytes (`Lst`, `NrfProofs/C07Inv.lean`).
+`C07_companion` turns it into the specification for every node of the 781-address tree.
+
+All statements are for **every** fuel, argument, world (every fault list, every other radio, every
+FIFO content, every arrival script) — by simultaneous induction over the mutual block
+(`NrfProofs/C07Write.lean: openAll`), never by enumeration.  They are about calls that *return*
+(`.ok`): a call that raises is C15's subject.
+
+**Open and closed system.**  The hypothesis `Quiet s` (`NrfProofs/C07Net.lean`) on the state a call
+starts in is: the system is open (`closed = false`: the other nodes do not run inside the call;
+their traffic is in the RX FIFOs / arrival scripts / fault lists, all universally quantified), **or**
+it is closed (at every poll of the running node every other node that has received something runs
+its `update()` to completion — or until it raises —, nested to any depth), the call runs as a node
+that is on the call stack, and distinct node objects drive distinct radios.  In the closed system
+the theorems are about **the node whose call returns**: the frame theorem
+`NrfProofs/C07Closed.lean: runOthers_keeps` (on top of agent K's `frameAll`) shows that whatever the
+other nodes do meanwhile — every fuel, every outcome, exceptions included — the caller's `Node`
+record (up to its saved clock) and every configuration register of the caller's radio are left
+alone.  Since the statements hold for every state, they also apply to each *nested* `update()`
+of another node that returns (the state after the context switch satisfies `Quiet` again).  What
+they do not say: a node whose nested `update()` **raises** (in the model also: runs out of fuel)
+inside another node's call is left as the exception left it — the exception is swallowed by the
+scheduler, so no call of that node "returns"; excluding it is C15 for the closed system, which
+is not proved (see `MERGE_NOTES.md`).
 -/
-import NrfModel.Net.Api
+import NrfProofs.C07Mesh
+import NrfProps.C04
 
 namespace Nrf.Props.C07
-open Nrf Nrf.Net
+open Nrf Nrf.Net Nrf.Spec Nrf.Proofs Nrf.Props.C04
 
-/-- the address of a level is a single octal digit `1` at position `level - 1` -/
-theorem C07_lvl2addr_pos (l : Nat) (h : 0 < l) : lvl2addr l = 8 ^ (l - 1) := by
-  unfold lvl2addr
-  have : l ≠ 0 := by omega
-  simp only [this, ↓reduceIte, Nat.shiftLeft_eq, Nat.one_mul]
-  rw [Nat.mul_comm, Nat.pow_mul]
+/-- the hypothesis on `address_prefix` / `address_suffix`: C04's `CfgOk` (six pairwise distinct
+    suffix bytes different from the prefix byte), and they are bytes -/
+def CfgBytes (cfg : AddrCfg) : Prop := CfgOk cfg ∧ cfg.pfx < 256 ∧ ∀ x ∈ cfg.sfx, x < 256
+
+theorem C07_good_of {cfg : AddrCfg} (h : CfgBytes cfg) : GoodCfg cfg := h
+
+/-- the radio of the node the session runs as -/
+def radioOf (s : NetState) : Radio := s.w.radio s.node.rf.rid
+
+/-! ## the invariant is the specification -/
+
+/-- For a node of the 781-address tree (any admissible prefix/suffix, multicast allowed or not,
+    multicast level 0..4): the register-level invariant implies `Listening` — PWR_UP, PRIM_RX, CE,
+    EN_RXADDR = 0x3F, the documented address on each of the six pipes (what the chip matches pipes
+    2..5 against included), EN_AA = 0x3E, DYNPD = 0x3F, EN_DPL. -/
+theorem C07_companion (s : NetState) (h : NodeListens s) (hc : CfgBytes s.node.cfg) (ds : List Nat)
+    (hn : IsNode ds) (ha : s.node.a.addr = val ds) (hl : s.node.a.netLvl ≤ 4) :
+    Listening s.node (radioOf s) :=
+  listening_of h (C07_good_of hc) hn ha hl
+
+/-! ## `_begin` establishes it -/
+
+/-- a concrete session: one node object on one radio in the state `RF24.__init__` leaves the
+    registers this property is about (dynamic payloads on all pipes), open system -/
+def demo : NetState :=
+  { nodes := [{ rf := { pipes0 := [0xE7, 0xE7, 0xE7, 0xE7, 0xE7] } }],
+    w := { radios := [{ dynpd := 0x3F, feature := 5 }], busyUntil := [0] }, closed := false }
+
+theorem C07_demo_base : demo.cur < demo.nodes.length ∧ demo.drv.Wf ∧ Base demo.drv.d demo.drv.cfg ∧
+    CfgBytes demo.node.cfg ∧ demo.closed = false := by
+  refine ⟨by decide, ?_, ?_, by unfold CfgBytes; decide, rfl⟩
+  · show demo.drv.d.rid < demo.drv.w.radios.length; decide
+  · constructor <;> decide
+
+/-- `_begin(a)` for **every** tree address `a = val ds`, from every session state in which the
+    node's radio exists and driver object and radio have the shape `RF24.__init__` leaves (`Base`:
+    DYNPD = 0x3F, EN_DPL set, EN_ACK_PAY clear, five-byte address registers and shadows, the pipe-0
+    shadow equal to RX_ADDR_P0), in every world: `_begin` **returns**, the node listens on the six
+    addresses of `ds` (invariant and specification), and its address attributes are those
+    `_begin` derives for `ds`. -/
+theorem C07_begin (s : NetState) (ds : List Nat) (hn : IsNode ds) (hcur : s.cur < s.nodes.length)
+    (hw : s.drv.Wf) (hb : Base s.drv.d s.drv.cfg) (hc : CfgBytes s.node.cfg) :
+    ∃ s', nexec (begin (val ds)) s = (.ok (), s') ∧ NodeListens s' ∧ Listening s'.node (radioOf s') ∧
+      beginAddr (val ds) = some s'.node.a ∧ s'.node.a.addr = val ds ∧ s'.node.a.netLvl = ds.length ∧
+      s'.node.cfg = s.node.cfg ∧ s'.cur = s.cur ∧ s'.closed = s.closed ∧ (Quiet s → Quiet s') := by
+  have := n_begin (E := noErr)
+    (Q := fun _ s' => NodeListens s' ∧ Listening s'.node (radioOf s') ∧ beginAddr (val ds) = some s'.node.a
+      ∧ s'.node.a.addr = val ds ∧ s'.node.a.netLvl = ds.length
+      ∧ s'.node.cfg = s.node.cfg ∧ s'.cur = s.cur ∧ s'.closed = s.closed ∧ (Quiet s → Quiet s'))
+    hcur hw hb (C07_good_of hc) hn
+    (by
+      intro s' h1 h2 h3
+      have hc' : CfgBytes s'.node.cfg := by rw [h2.cfg]; exact hc
+      refine ⟨h1, C07_companion s' h1 hc' ds hn (by rw [h3]; rfl) (by rw [h3]; exact hn.2), ?_,
+        by rw [h3]; rfl, by rw [h3]; rfl, h2.cfg, h2.cur, h2.closed, fun q => q.nfr0 h2⟩
+      rw [h3]; exact begin_node hn)
+  obtain ⟨a, s', h1, h2⟩ := (wp_no_iff _ _ _).1 this
+  exact ⟨s', h1, h2⟩
+
+/-- non-vacuity: the concrete session satisfies the hypotheses, for node `0o123` -/
+example : IsNode [3, 2, 1] ∧ ∃ s', nexec (begin (val [3, 2, 1])) demo = (.ok (), s') ∧ NodeListens s' ∧
+    Listening s'.node (radioOf s') := by
+  obtain ⟨h1, h2, h3, h4, _⟩ := C07_demo_base
+  obtain ⟨s', a, b, c, _⟩ := C07_begin demo [3, 2, 1] (by decide) h1 h2 h3 h4
+  exact ⟨by decide, s', a, b, c⟩
+
+/-- a session in which the node listens (used by the non-vacuity examples below) -/
+theorem C07_demo_listens : ∃ s, NodeListens s ∧ s.closed = false ∧ CfgBytes s.node.cfg ∧
+    s.node.a.addr = val [3, 2, 1] ∧ s.node.a.netLvl ≤ 4 := by
+  obtain ⟨h1, h2, h3, h4, h5⟩ := C07_demo_base
+  obtain ⟨s', _, b, _, _, e1, e2, e3, _, e5, _⟩ := C07_begin demo [3, 2, 1] (by decide) h1 h2 h3 h4
+  refine ⟨s', b, e5.trans h5, by rw [e3]; exact h4, e1, ?_⟩
+  rw [e2]; decide
+
+/-- a concrete **closed** session: two node objects on two radios, the call runs as node 0, which is
+    on the call stack -/
+def demo2 : NetState :=
+  { nodes := [{ rf := { rid := 0, pipes0 := [0xE7, 0xE7, 0xE7, 0xE7, 0xE7] } },
+              { rf := { rid := 1, pipes0 := [0xE7, 0xE7, 0xE7, 0xE7, 0xE7] } }],
+    cur := 0, active := [0],
+    w := { radios := [{ dynpd := 0x3F, feature := 5 }, { dynpd := 0x3F, feature := 5 }], busyUntil := [0, 0] },
+    closed := true }
+
+theorem C07_demo2_quiet : Quiet demo2 ∧ demo2.closed = true := by
+  refine ⟨Or.inr ⟨⟨by decide, by decide⟩, ?_⟩, rfl⟩
+  intro a b ha hb hab
+  have ha' : a < 2 := ha
+  have hb' : b < 2 := hb
+  have : (a = 0 ∧ b = 1) ∨ (a = 1 ∧ b = 0) := by omega
+  rcases this with ⟨rfl, rfl⟩ | ⟨rfl, rfl⟩ <;> decide
+
+/-- non-vacuity for the closed system: a listening node in a closed session that satisfies `Quiet` -/
+theorem C07_demo2_listens : ∃ s, NodeListens s ∧ s.closed = true ∧ Quiet s ∧ CfgBytes s.node.cfg := by
+  have hb : Base demo2.drv.d demo2.drv.cfg := by constructor <;> decide
+  have hw : demo2.drv.Wf := by show demo2.drv.d.rid < demo2.drv.w.radios.length; decide
+  have hc : CfgBytes demo2.node.cfg := by unfold CfgBytes; decide
+  obtain ⟨s', _, b, _, _, _, _, e3, _, e5, q⟩ := C07_begin demo2 [3, 2, 1] (by decide) (by decide) hw hb hc
+  exact ⟨s', b, e5.trans C07_demo2_quiet.2, q C07_demo2_quiet.1, by rw [e3]; exact hc⟩
+
+/-! ## every exit of `_write` re-establishes it -/
+
+/-- **`_write(write_direct, send_type)`**, open or closed system (`Quiet`): for EVERY fuel, every argument, every world
+    (every fault list — each `send`/`resend` succeeds or fails arbitrarily —, every other radio,
+    every FIFO content, every script of arrivals): if the node listens before and the call returns,
+    the node listens after — whichever exit was taken (plain, after emitting a NETWORK_ACK, after
+    the NETWORK_ACK wait incl. its timeout and all the traffic handled and forwarded while waiting,
+    loop-back enqueue, multicast, every fragment-abort point, every `_tx_standby` retry). Address
+    attributes, configuration and identity of the node are unchanged. -/
+theorem C07_write_exit (f wd st : Nat) (s s' : NetState) (r : Bool) (hopen : Quiet s)
+    (h : NodeListens s) (hret : nexec (nodeWrite f wd st) s = (.ok r, s')) :
+    NodeListens s' ∧ s'.node.a = s.node.a ∧ s'.node.cfg = s.node.cfg ∧ s'.cur = s.cur := by
+  obtain ⟨p0, a1, aN, ha, hl⟩ := h
+  have := (openAll p0 a1 aN f).nodeWrite 0x3E wd st s s hopen ⟨hl.mid, NFr.refl s⟩
+  have h' := (wp_any_iff _ _ _).1 this r s' hret
+  exact ⟨⟨p0, a1, aN, addrOf_frame h'.2 ha, h'.1⟩, h'.2.a, h'.2.cfg, h'.2.cur⟩
+
+/-- … in terms of the specification, for the nodes of the tree -/
+theorem C07_write_exit_listening (f wd st : Nat) (s s' : NetState) (r : Bool) (hopen : Quiet s)
+    (h : NodeListens s) (hc : CfgBytes s.node.cfg) (ds : List Nat) (hn : IsNode ds)
+    (ha : s.node.a.addr = val ds) (hl : s.node.a.netLvl ≤ 4)
+    (hret : nexec (nodeWrite f wd st) s = (.ok r, s')) : Listening s'.node (radioOf s') := by
+  obtain ⟨h1, h2, h3, _⟩ := C07_write_exit f wd st s s' r hopen h hret
+  exact C07_companion s' h1 (by rw [h3]; exact hc) ds hn (by rw [h2]; exact ha) (by rw [h2]; exact hl)
+
+/-- `_write` entered in the middle of a transmission (radio in TX mode, pipe 0 on the TX address,
+    EN_AA = 0x3F or 0x3E — any state in which only the `_begin` configuration `Mid` holds) still
+    ends listening: the exits do not depend on how `_write` was entered. -/
+theorem C07_write_exit_from_tx (f wd st : Nat) (s s' : NetState) (r : Bool) (hopen : Quiet s)
+    (p0 a1 : Bytes) (aN : List Nat) (v : Nat) (h : s.MidS p0 a1 aN v)
+    (hret : nexec (nodeWrite f wd st) s = (.ok r, s')) : s'.LstS p0 a1 aN 0x3E := by
+  have := (openAll p0 a1 aN f).nodeWrite v wd st s s hopen ⟨h, NFr.refl s⟩
+  exact ((wp_any_iff _ _ _).1 this r s' hret).1
+
+example : ∃ s, NodeListens s ∧ s.closed = false := by
+  obtain ⟨s, h1, h2, _⟩ := C07_demo_listens; exact ⟨s, h1, h2⟩
+
+/-- the frame handlers and the loop of `_net_update`, the NETWORK_ACK wait: every fuel -/
+theorem C07_net_update (f rv : Nat) (s s' : NetState) (r : Nat) (hopen : Quiet s)
+    (h : NodeListens s) (hret : nexec (netUpdate f rv) s = (.ok r, s')) :
+    NodeListens s' ∧ s'.node.a = s.node.a ∧ s'.node.cfg = s.node.cfg := by
+  obtain ⟨p0, a1, aN, ha, hl⟩ := h
+  have := (openAll p0 a1 aN f).netUpdate rv s s hopen ⟨hl, NFr.refl s⟩
+  have h' := (wp_any_iff _ _ _).1 this r s' hret
+  exact ⟨⟨p0, a1, aN, addrOf_frame h'.2 ha, h'.1⟩, h'.2.a, h'.2.cfg⟩
+
+example : ∃ s, NodeListens s ∧ s.closed = false := by
+  obtain ⟨s, h1, h2, _⟩ := C07_demo_listens; exact ⟨s, h1, h2⟩
+
+/-! ## every entry point, every history -/
+
+/-- the public entry points of the four node classes (`NrfModel/Net/Api.lean`; results dropped) and
+    what the environment of an open system can do between two calls -/
+inductive Call where
+  | update
+  | read
+  | write (to ty : Int) (msg : Bytes) (direct : Nat)
+  | multicast (msg : Bytes) (ty : Int) (level : Option Int)
+  /-- `node_address = val ds` -/
+  | setNodeAddress (ds : List Nat)
+  | setMulticastLevel (lvl : Int)
+  | setFragmentation (en : Bool)
+  | setMulticastRelay (en : Bool)
+  | meshWrite (to : Nat) (ty : Int) (msg : Bytes)
+  | meshSend (toId : Nat) (ty : Int) (msg : Bytes)
+  | meshRelease
+  | meshRenew (timeoutMs : Nat)
+  | meshLookupAddress (id : Int)
+  | meshLookupNodeId (a : Option Int)
+  | meshCheckConnection (attempts : Nat) (pingMaster : Bool)
+  | masterRelease (address : Nat)
+  /-- environment: a frame will arrive at `due` on `pipe` -/
+  | envArrive (due pipe : Nat) (data : Bytes)
+  /-- environment: the outcomes of the next transmission attempts -/
+  | envFaults (l : List Outcome)
+  /-- environment: a payload is put into the RX FIFO now -/
+  | envInject (pipe : Nat) (data : Bytes)
+
+def Call.run : Call → NetM Unit
+  | .update => do let _ ← apiUpdate
+  | .read => do let _ ← apiRead
+  | .write to ty msg direct => do let _ ← apiNetWrite to ty msg direct
+  | .multicast msg ty level => do let _ ← apiMulticast msg ty level
+  | .setNodeAddress ds => apiSetNodeAddress (val ds)
+  | .setMulticastLevel lvl => apiSetMulticastLevel lvl
+  | .setFragmentation en => apiSetFragmentation en
+  | .setMulticastRelay en => apiSetMulticastRelay en
+  | .meshWrite to ty msg => do let _ ← Net.meshWrite to ty msg
+  | .meshSend toId ty msg => do let _ ← Net.meshSend toId ty msg
+  | .meshRelease => do let _ ← Net.meshRelease
+  | .meshRenew t => do let _ ← Net.meshRenew t
+  | .meshLookupAddress id => do let _ ← Net.meshLookupAddress id
+  | .meshLookupNodeId a => do let _ ← Net.meshLookupNodeId a
+  | .meshCheckConnection n p => do let _ ← Net.meshCheckConnection n p
+  | .masterRelease a => do let _ ← masterReleaseApi a
+  | .envArrive due pipe data => modNode fun n => { n with arrivals := n.arrivals ++ [(due, pipe, data)] }
+  | .envFaults l => modify fun s => { s with w := { s.w with faults := l } }
+  | .envInject pipe data => do
+      let n ← getNode
+      modify fun s => { s with w := s.w.inject n.rf.rid pipe data }
+
+/-- what the property assumes of the arguments: `node_address` is given an address of the tree
+    (the other values `is_address_valid` accepts are the three reserved multicast addresses);
+    `multicast_level` is assigned on a node that allows multicast — see the finding below -/
+def Call.Admissible (cfg : AddrCfg) : Call → Prop
+  | .setNodeAddress ds => IsNode ds
+  | .setMulticastLevel _ => cfg.allowMulticast = true
+  | _ => True
+
+theorem C07_faults_same (ds : DrvState) (l : List Outcome) (hw : ds.Wf) :
+    Same false ds { ds with w := { ds.w with faults := l } } :=
+  { rid := rfl, wf := hw, other := fun _ _ => rfl, len := rfl, clock := Nat.le_refl _, d := rfl, regs := rfl,
+    ce := fun _ => rfl }
+
+/-- **Every entry point** (network and mesh, node and master) and every move of the environment,
+    open or closed system (`Quiet`), every argument, every world: if the node listens before and the call returns, the
+    node listens after; its configuration and identity are unchanged. -/
+theorem C07_api (c : Call) (s s' : NetState) (hopen : Quiet s) (h : NodeListens s)
+    (hc : CfgBytes s.node.cfg) (hadm : c.Admissible s.node.cfg) (hret : nexec c.run s = (.ok (), s')) :
+    NodeListens s' ∧ s'.node.cfg = s.node.cfg ∧ s'.closed = s.closed ∧ s'.cur = s.cur ∧ Quiet s' := by
+  have hnl : NL s s := ⟨h, NFr0.refl s⟩
+  have hg := C07_good_of hc
+  have fin : wp anyErr c.run (fun _ s' => NL s s') s → NodeListens s' ∧ s'.node.cfg = s.node.cfg ∧
+      s'.closed = s.closed ∧ s'.cur = s.cur ∧ Quiet s' := by
+    intro hw
+    have := (wp_any_iff _ _ _).1 hw () s' hret
+    exact ⟨this.1, this.2.cfg, this.2.closed, this.2.cur, hopen.nfr0 this.2⟩
+  apply fin
+  cases c with
+  | update => simp only [Call.run, wp_bind, wp_pure]; exact (nl_apiUpdate hopen hg hnl).post (fun _ _ h => h)
+  | read =>
+    simp only [Call.run, wp_bind, wp_pure]
+    unfold apiRead
+    simp only [wp_bind, wp_getNode]
+    split
+    · exact hnl
+    · simp only [wp_bind, wp_modNode, wp_pure]; nl_node hnl
+  | write to ty msg direct =>
+    simp only [Call.run, wp_bind, wp_pure]; exact (nl_apiNetWrite hopen to ty msg direct hnl).post (fun _ _ h => h)
+  | multicast msg ty level =>
+    simp only [Call.run, wp_bind, wp_pure]; exact (nl_apiMulticast hopen msg ty level hnl).post (fun _ _ h => h)
+  | setNodeAddress ds => simp only [Call.run]; exact nl_apiSetNodeAddress hg hadm hnl
+  | setMulticastLevel lvl => simp only [Call.run]; exact (nl_apiSetMulticastLevel lvl hnl hadm).post (fun _ _ h => h.1)
+  | setFragmentation en => simp only [Call.run]; exact nl_apiSetFragmentation en hnl
+  | setMulticastRelay en =>
+    simp only [Call.run]
+    unfold apiSetMulticastRelay
+    rw [wp_modNode]; nl_node hnl
+  | meshWrite to ty msg =>
+    simp only [Call.run, wp_bind, wp_pure]; exact (nl_meshWrite hopen to ty msg hnl).post (fun _ _ h => h)
+  | meshSend toId ty msg =>
+    simp only [Call.run, wp_bind, wp_pure]; exact (nl_meshSend hopen toId ty msg hnl).post (fun _ _ h => h)
+  | meshRelease => simp only [Call.run, wp_bind, wp_pure]; exact (nl_meshRelease hopen hg hnl).post (fun _ _ h => h)
+  | meshRenew t => simp only [Call.run, wp_bind, wp_pure]; exact (nl_meshRenew hopen hg t hnl).post (fun _ _ h => h)
+  | meshLookupAddress id =>
+    simp only [Call.run, wp_bind, wp_pure]; exact (nl_meshLookupAddress hopen id hnl).post (fun _ _ h => h)
+  | meshLookupNodeId a =>
+    simp only [Call.run, wp_bind, wp_pure]; exact (nl_meshLookupNodeId hopen a hnl).post (fun _ _ h => h)
+  | meshCheckConnection n p =>
+    simp only [Call.run, wp_bind, wp_pure]; exact (nl_meshCheckConnection hopen n p hnl).post (fun _ _ h => h)
+  | masterRelease a =>
+    simp only [Call.run, wp_bind, wp_pure]; exact (nl_masterReleaseApi hopen hg a hnl).post (fun _ _ h => h)
+  | envArrive due pipe data => simp only [Call.run]; rw [wp_modNode]; nl_node hnl
+  | envFaults l =>
+    simp only [Call.run, wp_modify]
+    obtain ⟨p0, a1, aN, ha, hl⟩ := h
+    exact ⟨⟨p0, a1, aN, ha, hl.world _ (C07_faults_same s.drv l hl.2.1)⟩, (NFr.world s _).to0⟩
+  | envInject pipe data =>
+    simp only [Call.run, wp_bind, wp_getNode, wp_modify]
+    obtain ⟨p0, a1, aN, ha, hl⟩ := h
+    exact ⟨⟨p0, a1, aN, ha, hl.world _ (inject_same s.drv s.node.rf.rid pipe data hl.2.1)⟩, (NFr.world s _).to0⟩
+
+/-- non-vacuity of `C07_api` in both systems: an open session (`Quiet` by its first alternative) and
+    a closed one (second alternative) in which the node listens -/
+example : (∃ s, NodeListens s ∧ Quiet s ∧ s.closed = false ∧ CfgBytes s.node.cfg) ∧
+    (∃ s, NodeListens s ∧ Quiet s ∧ s.closed = true ∧ CfgBytes s.node.cfg) := by
+  obtain ⟨s, h1, h2, h3, _⟩ := C07_demo_listens
+  obtain ⟨s2, g1, g2, g3, g4⟩ := C07_demo2_listens
+  exact ⟨⟨s, h1, Or.inl h2, h2, h3⟩, ⟨s2, g1, g3, g2, g4⟩⟩
+
+/-- a history: calls and environment moves, one after the other, each returning -/
+inductive Runs : List Call → NetState → NetState → Prop
+  | nil (s : NetState) : Runs [] s s
+  | cons (c : Call) (cs : List Call) (s s1 s2 : NetState) :
+      nexec c.run s = (.ok (), s1) → Runs cs s1 s2 → Runs (c :: cs) s s2
+
+/-- **Any sequence** of entry points, arrivals, fault patterns (induction over the history): the
+    node listens after every one of them. -/
+theorem C07_history (cs : List Call) (s s' : NetState) (hopen : Quiet s) (h : NodeListens s)
+    (hc : CfgBytes s.node.cfg) (hadm : ∀ c ∈ cs, c.Admissible s.node.cfg) (hr : Runs cs s s') :
+    NodeListens s' ∧ s'.node.cfg = s.node.cfg := by
+  induction hr with
+  | nil s => exact ⟨h, rfl⟩
+  | cons c cs s s1 s2 h1 _ ih =>
+    obtain ⟨a, b, _, _, q⟩ := C07_api c s s1 hopen h hc (hadm c (List.mem_cons_self ..)) h1
+    obtain ⟨x, y⟩ := ih q a (by rw [b]; exact hc)
+      (fun c hc' => by rw [b]; exact hadm c (List.mem_cons_of_mem _ hc'))
+    exact ⟨x, y.trans b⟩
+
+/-- … in terms of the specification, whenever the node is (still / again) at an address of the tree -/
+theorem C07_history_listening (cs : List Call) (s s' : NetState) (hopen : Quiet s)
+    (h : NodeListens s) (hc : CfgBytes s.node.cfg) (hadm : ∀ c ∈ cs, c.Admissible s.node.cfg)
+    (hr : Runs cs s s') (ds : List Nat) (hn : IsNode ds) (ha : s'.node.a.addr = val ds)
+    (hl : s'.node.a.netLvl ≤ 4) : Listening s'.node (radioOf s') := by
+  obtain ⟨h1, h2⟩ := C07_history cs s s' hopen h hc hadm hr
+  exact C07_companion s' h1 (by rw [h2]; exact hc) ds hn ha hl
+
+/-- non-vacuity: a listening node, a history that is admissible and runs (the empty one, and one
+    environment move) -/
+example : ∃ s s', NodeListens s ∧ s.closed = false ∧ CfgBytes s.node.cfg ∧
+    Runs [Call.envFaults [Outcome.ackLost]] s s' ∧ (∀ c ∈ [Call.envFaults [Outcome.ackLost]], c.Admissible s.node.cfg) := by
+  obtain ⟨s, h1, h2, h3, _⟩ := C07_demo_listens
+  exact ⟨s, _, h1, h2, h3, Runs.cons _ _ s _ _ rfl (Runs.nil _), fun c hc => by simp at hc; subst hc; trivial⟩
+
+/-! ## FINDING (reported, not fixed): `multicast_level = lvl` with `allow_multicast = False`
+
+`multicast_level`'s setter re-opens pipe 0 on `_pipe_address(_lvl_2_addr(lvl), 0)` whatever
+`allow_multicast` is.  Without multicasting `_pipe_address(x, 0)` is the *own* pipe-0 address of
+node `x` — so the node stops listening on its own pipe-0 address and listens on that of the first
+node of level `lvl` instead (`Listening` fails on pipe 0).  Replayed on the real code:
+`net 1 0 new n network 0 9 ; n set allow_multicast F ; n set node_address 9 ; n set multicast_level 2`
+leaves RX_ADDR_P0 = c3c33ccccc, node 0o11's own is c33c3ccccc.  Hence the hypothesis
+`allowMulticast = true` in `Call.Admissible`.  Proposed fix (not applied: the C04 model of the
+setter in `NrfModel/Net/Addr.lean: multicastLevelAddr` / `NrfModel/Drv/Net.lean: hSetMcLvl` has to
+follow): open pipe 0 on `_pipe_address(_lvl_2_addr(lvl) if self.allow_multicast else self._addr, 0)`. -/
+
+/-- the crux on the model: with multicasting off, `multicast_level = 1` on node `0o2` opens pipe 0
+    on `_pipe_address(1, 0)`, which is not node `0o2`'s pipe-0 address `_pipe_address(2, 0)` -/
+theorem C07_finding_multicast_level :
+    lvl2addr 1 = val [1] ∧
+    pipeAddress { allowMulticast := false } (val [1]) 0 ≠ pipeAddress { allowMulticast := false } (val [2]) 0 := by
+  have hg : GoodCfg { allowMulticast := false } := C07_good_of (by unfold CfgBytes; decide)
+  refine ⟨by decide, ?_⟩
+  rw [pipeAddress_listen hg.hg (by decide) (by decide), pipeAddress_listen hg.hg (by decide) (by decide)]
+  intro h
+  have := Except.ok.inj h
+  revert this
+  decide
+
+/-- non-vacuity: the statement is closed (no hypotheses); the configuration it is about is
+    admissible -/
+example : CfgBytes { allowMulticast := false } := by unfold CfgBytes; decide
 
 end Nrf.Props.C07
